@@ -4,7 +4,7 @@
    the typed elements built from the blocks, KyGananciasSolares.txt and NewBDL_O.tbl are covered by
    the correspondence only. *)
 From Coq Require Import NArith Bool List String.
-From CTE Require Import Model.Bdl Model.BdlDoc Model.Kyg Proofs.BdlP Proofs.BdlPreambleP Proofs.KygP.
+From CTE Require Import Model.Bdl Model.BdlDoc Model.Kyg Model.Tbl Proofs.BdlP Proofs.BdlPreambleP Proofs.KygP Proofs.TblP.
 Import ListNotations.
 
 (* layout never matters: indentation, trailing blanks, CR before LF, blank lines, comment and LIDER
@@ -66,6 +66,15 @@ Proof. exact tb_roundtrip. Qed.
 Theorem C18_kyg_line_layout : forall w1 w2 l, all_wsb w1 = true -> all_wsb w2 = true -> edges_ok l = true ->
   parse_kline (trim (w1 ++ l ++ w2)) = parse_kline l.
 Proof. exact kline_layout. Qed.
+
+(* NewBDL_O.tbl: an element / a space written as a name line and a values line (any blanks in front of the
+   values) is read back value by value *)
+Theorem C18_tbl_element_roundtrip : forall e s1 s2 pre, wf_telem e s1 s2 = true -> all_wsb pre = true ->
+  parse_elem (te_name e) (pre ++ join [32%N] (te_vals e ++ [te_type e; s1; s2])) = Some e.
+Proof. exact elem_roundtrip. Qed.
+Theorem C18_tbl_space_roundtrip : forall s si sm pre, wf_tspace s si sm = true -> all_wsb pre = true ->
+  parse_space (ts_name s) (pre ++ join [32%N] [si; sm; ts_area s; ts_qint s]) = Some s.
+Proof. exact space_roundtrip. Qed.
 
 (* non-vacuity: a two-block document with an upper-case exponent, a quoted name and a three-line list,
    printed with tabs, CR LF, blank and comment lines, meets every hypothesis of C18_roundtrip *)
